@@ -16,6 +16,9 @@ unsigned char g_snap;      /* ghost snapshot: byte of the old buffer at index g_
 #define ENS_NEED(p, needed) (__CPROVER_old((p)->offset) + (needed) + 1)
 #define ENS_FITS(p, needed) ((needed) <= INT_MAX && ENS_NEED(p, needed) <= __CPROVER_old((p)->length))
 
+/* the tracked block follows the print buffer: an unrelated tracked block stays what it is (and is not the buffer); otherwise the tracked block is the current buffer or nothing */
+#define TR(p) ((__CPROVER_old(g_live) != NULL && __CPROVER_old(g_live) != (void*)__CPROVER_old((p)->buffer)) ? (g_live == __CPROVER_old(g_live) && g_live != (void*)(p)->buffer) : (g_live == NULL || g_live == (void*)(p)->buffer))
+
 /* ------------------------------------------------------------------ ensure */
 #ifdef VF_ENF_ensure
 #ifdef VF_ENS_NOFREED
@@ -46,6 +49,7 @@ __CPROVER_ensures((__CPROVER_return_value == NULL && p->buffer != __CPROVER_old(
 __CPROVER_ensures((__CPROVER_return_value == NULL && p->buffer == __CPROVER_old(p->buffer)) ==> (p->length == __CPROVER_old(p->length) && g_hook_frees == __CPROVER_old(g_hook_frees))) /*@C08 C07 C14*/
 /* the only tracked block that may appear is the new buffer; the old one disappears only by being released */
 #ifndef VF_ENS_NOLIVE
+__CPROVER_ensures(TR(p)) /*@C08 C07*/
 __CPROVER_ensures(g_live == __CPROVER_old(g_live) || (g_live == NULL && __CPROVER_old(g_live) == __CPROVER_old((void*)p->buffer)) || (g_live != NULL && g_live == (void*)p->buffer)) /*@C08 C07*/
 #endif
 __CPROVER_ensures(C14_POST(p->hooks)) /*@C14*/
@@ -112,6 +116,7 @@ struct vf_wb_ghost { unsigned char * wb_buffer; size_t wb_length; size_t wb_offs
 static cJSON_bool name(const cJSON * const item, printbuffer * const output_buffer) \
 __CPROVER_requires(__CPROVER_is_fresh(item, sizeof(cJSON)) && __CPROVER_is_fresh(output_buffer, sizeof(printbuffer))) \
 __CPROVER_ensures(g_disp == (tag) && g_disp_ret == __CPROVER_return_value && WB_LOGGED(item, output_buffer)) \
+__CPROVER_ensures(__CPROVER_return_value ==> (output_buffer->depth == __CPROVER_old(output_buffer->depth) && output_buffer->offset >= __CPROVER_old(output_buffer->offset))) \
 __CPROVER_ensures(LIVE_SAME) \
 __CPROVER_assigns(output_buffer->buffer, output_buffer->length, output_buffer->offset, output_buffer->depth, GHOST_LOG, GHOST_WB, GHOST_ALLOC);
 #ifdef VF_ENF_print_value
@@ -154,6 +159,8 @@ __CPROVER_ensures((item != NULL && output_buffer != NULL && PV_T == cJSON_Object
 /* anything else (invalid type, several type bits) is refused without output */
 __CPROVER_ensures((item != NULL && output_buffer != NULL && PV_T != cJSON_NULL && PV_T != cJSON_True && PV_T != cJSON_False && PV_T != cJSON_Raw && PV_T != cJSON_Number &&
     PV_T != cJSON_String && PV_T != cJSON_Array && PV_T != cJSON_Object) ==> (!__CPROVER_return_value && g_ens_calls == 0 && g_wb_calls == 0)) /*@C05*/
+/* a successful value printer leaves the nesting depth as it found it and never moves the offset backwards (what print_array / print_object rely on, specs/c_printcont.h) */
+__CPROVER_ensures((item != NULL && output_buffer != NULL && __CPROVER_return_value) ==> (output_buffer->depth == __CPROVER_old(output_buffer->depth) && output_buffer->offset >= __CPROVER_old(output_buffer->offset))) /*@C05 C09*/
 __CPROVER_ensures(LIVE_SAME) /*@C08*/
 __CPROVER_assigns(GHOST_ENS, GHOST_ALLOC, GHOST_LOG, GHOST_WB; output_buffer != NULL: output_buffer->buffer, output_buffer->length, output_buffer->offset, output_buffer->depth);
 #endif
